@@ -88,16 +88,17 @@ func (p *Parser) parseNext() error {
 func (p *Parser) parseOperator() error {
 	start := p.pos
 
-	// Read operator name (letters and possibly quotes for special operators)
+	// Read operator name: a run of regular characters, ended by white space
+	// or a delimiter. Besides letters this covers ', ", * (T*, f*, B*, b*) and
+	// digits (d0, d1).
 	var op bytes.Buffer
 	for p.pos < len(p.data) {
 		c := p.data[p.pos]
-		if isLetter(c) || c == '\'' || c == '"' || c == '*' {
-			op.WriteByte(c)
-			p.pos++
-		} else {
+		if isWhitespace(c) || isDelimiter(c) {
 			break
 		}
+		op.WriteByte(c)
+		p.pos++
 	}
 
 	operator := op.String()
